@@ -411,7 +411,16 @@ func genProgram(tp *simrt.Tape, cfg gp.SimulatorConfig, legalPct int) textCase {
 		g.lines = append(g.lines, []string{"for 2 &", "for 2\ndat 1 | 1\nrof", "for 2\ndat 1\nrof &"}[tp.Draw("forerr.kind", 3)])
 		g.notes = append(g.notes, "for-with-lex-error")
 	}
-	switch tp.Draw("prog.end", 8) {
+	switch tp.Draw("prog.end", 10) {
+	case 8: // a label on the END line, used as the entry point
+		l := g.name("fin")
+		g.lines = append(g.lines, l+" end "+l)
+		g.notes = append(g.notes, "end-label-as-entry-point")
+	case 9: // ORG naming a label that sits on the END line
+		l := g.name("fin")
+		g.lines = append([]string{"org " + l}, g.lines...)
+		g.lines = append(g.lines, l+" end")
+		g.notes = append(g.notes, "org-to-end-label")
 	case 0:
 		g.lines = append(g.lines, "end")
 	case 1:
